@@ -459,48 +459,59 @@ def item_charset(item, flags):
 
 
 class GroupInfo(object):
-  """One capturing group of a regex: name, parent group (or None), whether it takes part in
-  every match of its parent, its body, and the alternation branch it sits in."""
-  def __init__(self, gid, name, parent, mandatory, body, branch_path):
+  """One capturing group of a regex.
+    parent        enclosing capturing group (None at top level)
+    mandatory     takes part in every match of its parent (no alternation, optional repeat or
+                  look-around between the two)
+    branch_path   the alternations between parent and group: ((branch id, arm index, arms), ...)
+    branch_certain  the outermost of those alternations itself takes part in every match of the
+                  parent
+    arm_mandatory within its innermost arm the group is unconditional
+  """
+  def __init__(self, gid, name, parent, mandatory, body, branch_path, branch_certain,
+               arm_mandatory):
     self.gid = gid
     self.name = name
     self.parent = parent
     self.mandatory = mandatory
     self.body = body
-    self.branch_path = branch_path   # tuple of (id(branch node), alternative index)
+    self.branch_path = branch_path
+    self.branch_certain = branch_certain
+    self.arm_mandatory = arm_mandatory
 
 
 def regex_groups(rx):
-  """{group name: GroupInfo} for every named group of the regex."""
+  """{group name (or number for unnamed groups): GroupInfo} for every capturing group."""
   tree = parse_regex(rx)
   names = {gid: nm for nm, gid in tree.state.groupdict.items()}
   out = {}
 
-  def walk(sub, parent, mandatory, path):
+  def walk(sub, parent, mand, path, bcertain, armmand):
+    # mand: unconditional since parent; armmand: unconditional since the innermost arm
     for (op, av) in sub:
       if op is sre_c.SUBPATTERN:
         gid, add_flags, del_flags, body = av
         if gid is None:
-          walk(body, parent, mandatory, path)
+          walk(body, parent, mand, path, bcertain, armmand)
         else:
           nm = names.get(gid)
-          gi = GroupInfo(gid, nm, parent, mandatory, body, path)
+          gi = GroupInfo(gid, nm, parent, mand, body, path, bcertain, armmand)
           out[nm if nm is not None else gid] = gi
-          walk(body, gi, True, ())
+          walk(body, gi, True, (), True, True)
       elif op is sre_c.BRANCH:
         for i, alt in enumerate(av[1]):
-          walk(alt, parent, False, path + ((id(av), i),))
-      elif op in (sre_c.MAX_REPEAT, sre_c.MIN_REPEAT) or \
-          str(op) == "POSSESSIVE_REPEAT":
+          walk(alt, parent, False, path + ((id(av), i, len(av[1])),),
+               bcertain if path else mand, True)
+      elif op in (sre_c.MAX_REPEAT, sre_c.MIN_REPEAT) or str(op) == "POSSESSIVE_REPEAT":
         lo, hi, body = av
-        walk(body, parent, mandatory and lo >= 1, path)
+        walk(body, parent, mand and lo >= 1, path, bcertain, armmand and lo >= 1)
       elif op in (sre_c.ASSERT, sre_c.ASSERT_NOT):
-        walk(av[1], parent, False, path)
+        walk(av[1], parent, False, path, bcertain, False)
       elif str(op) == "ATOMIC_GROUP":
-        walk(av, parent, mandatory, path)
+        walk(av, parent, mand, path, bcertain, armmand)
       elif op is sre_c.GROUPREF_EXISTS:
         raise AnalysisError("conditional regex groups are outside the supported subset")
-  walk(tree, None, True, ())
+  walk(tree, None, True, (), True, True)
   return out
 
 
